@@ -215,8 +215,13 @@ func H_C12_pool() {
 		q := new(Msg)
 		q.Id = vU16(pfx + "id")
 		q.Question = []Question{{Name: string([]byte{'a' + vU8(pfx+"l")%26}) + ".ex.", Qtype: TypeTXT, Qclass: ClassINET}}
-		o := &OPT{Hdr: RR_Header{Name: ".", Rrtype: TypeOPT, Class: 1232}}
-		o.Option = []EDNS0{&EDNS0_LOCAL{Code: EDNS0LOCALSTART, Data: vBytes(pfx+"opt", 2)}, &EDNS0_COOKIE{Code: EDNS0COOKIE, Cookie: refHex(vBytes(pfx+"ck", 8))}}
+		// OPT with 0..2 options of every kind the generator knows (incl. full-length IPv6 client subnets), contents symbolic
+		o, _, _ := vBuildOPT(pfx + "o")
+		o.Hdr.Ttl &= 0x00FFFFFF // (the extended RCODE octet belongs to the message header)
+		if pfx == "y" {
+			o = &OPT{Hdr: RR_Header{Name: ".", Rrtype: TypeOPT, Class: 1232}}
+			o.Option = []EDNS0{&EDNS0_LOCAL{Code: EDNS0LOCALSTART, Data: vBytes(pfx+"opt", 2)}}
+		}
 		q.Extra = []RR{o}
 		b, err := q.Pack()
 		vAssume(err == nil)
@@ -229,6 +234,7 @@ func H_C12_pool() {
 	vAssume(ref1.Id != ref2.Id)
 	var mu sync.Mutex
 	seen := map[int]*Msg{}
+	intact := map[int]bool{}
 	srv := &Server{}
 	pc := &vPacketConn{in: [][]byte{b1, b2}}
 	srv.Handler = HandlerFunc(func(w ResponseWriter, r *Msg) {
@@ -241,7 +247,8 @@ func H_C12_pool() {
 		// this request's receive buffer is back in the pool by now: somebody else writes into it
 		pc.scribbleOne(which, vBytes("scribble"+vItoa(which), 3))
 		seen[which] = r
-		vAssert(vDeepEqual(r, want), "handler-sees-exactly-the-request-that-was-sent")
+		// (recorded here, asserted by the harness goroutine: natively the handler runs on a goroutine of its own)
+		intact[which] = vDeepEqual(r, want)
 		reply := new(Msg)
 		reply.SetReply(r)
 		w.WriteMsg(reply)
@@ -253,6 +260,7 @@ func H_C12_pool() {
 	vReach("pool")
 	err := srv.serveUDP(pc)
 	vAssert(err == nil && len(seen) == 2, "both-requests-handled")
+	vAssert(intact[0] && intact[1], "handler-sees-exactly-the-request-that-was-sent")
 	// still intact after everything has finished and both buffers were recycled
 	if len(seen) == 2 {
 		vAssert(vDeepEqual(seen[0], ref1) && vDeepEqual(seen[1], ref2), "requests-stay-intact-after-their-buffers-are-reused")
